@@ -15,5 +15,5 @@ if ! patch -p1 -s < "$OUT/patch.diff"; then echo "PATCH-DOES-NOT-APPLY"; exit 9;
 PYTHONPATH="$S/src" timeout 300 /venv/bin/python "$OUT/demo.py" >/dev/null 2>&1; echo "demo_patched_exit=$?"
 /verif/tools/baseline.sh "$S" | head -3
 cd /verif
-FSIM_REPO_SRC="$S/src" timeout 1800 ./run "$PROP" --tier quick "$@" 2>&1 | grep -v "^KNOWN-FINDING" | cut -c1-260 | tail -6
+FSIM_OUT_DIR="$S/out" FSIM_REPO_SRC="$S/src" timeout 1800 ./run "$PROP" --tier quick "$@" 2>&1 | grep -v "^KNOWN-FINDING" | cut -c1-260 | tail -6
 echo "check_exit=${PIPESTATUS[0]}"
